@@ -68,6 +68,27 @@ func setupC17(x *Ctx) {
 		}
 	})
 
+	// the hub asks the manager for its current entries (what RegisterRemoteSKI and a closed
+	// connection of a paired service do) while resolver events are being processed
+	nReq := 0
+	if x.Feat(FeatMdnsRequests) {
+		nReq = x.Biased("mdns-requests", 6, 0.5)
+	}
+	reqGaps := make([]time.Duration, nReq)
+	for i := range reqGaps {
+		reqGaps[i] = time.Duration(x.Choose("req-gap", 5)) * 50 * time.Millisecond
+	}
+	x.Go("A:requests", func() {
+		simrt.Recv("created", a.ready)
+		simrt.Recv("provider-started", a.prov.startedCh)
+		simrt.Sleep(time.Second)
+		for _, g := range reqGaps {
+			simrt.Sleep(g)
+			x.Probe("entries-requested-during-events")
+			a.mdns.RequestMdnsEntries()
+		}
+	})
+
 	x.Go("A:resolver", func() {
 		a.create()
 		a.hub.Start()
